@@ -339,7 +339,7 @@ Definition walk_step (P : program) (hook_len : nat -> nat) (s : ospec) (i : nat)
   let s2 := if os_resumed st then refresh_cands s1 w else s1 in
   if os_resumed st && late then
     match os_emitted st with
-    | [] => set_last_resume s2 w i
+    | [] => s2   (* blocked on the handler's mutex: the entry comes with a later arrival and is still judged by the old resumption *)
     | l :: rest => fold_left (fun acc l => on_label P hook_len acc i w l) rest
                              (set_last_resume (on_label P hook_len s2 i w l) w i)
     end
